@@ -92,6 +92,8 @@ def run_selftest(prop=None, jobs=16, only=None, quiet=False):
                         work.append((sid + "@" + p, p, [("<patch>", patch_p, "")], [], True))
                 continue
             p = meta["property"]
+            if meta.get("props") == []:
+                continue  # kept for the record: ends in ANALYSIS-ERROR (no verdict), see its meta.json
             if prop and p != prop:
                 continue
             if only and sid not in only.split(","):
